@@ -105,7 +105,7 @@ def same(a: list, b: list) -> Any:
 def card_arg(ctx: Any, st: Any, name: str, player: Any) -> Any:
     """a cards-like argument chosen by a symbolic selector."""
     from pokerkit.utilities import Card
-    k = ctx.choice(name, 8)
+    k = ctx.choice(name, 10)
     deck = list(st.deck_cards)
     inplay = [c for h in st.hole_cards for c in h] + [c for b in st.board_cards for c in b]
     own = list(st.hole_cards[player]) if player is not None else []
@@ -123,6 +123,10 @@ def card_arg(ctx: Any, st: Any, name: str, player: Any) -> Any:
         return (own[0], own[0]) if own else ()
     if k == 6:
         return tuple(deck[:6])
+    if k == 8:
+        return tuple(deck[:2])
+    if k == 9:
+        return tuple(own) + (Card.UNKNOWN,)
     return tuple(own[:1])
 
 
@@ -182,7 +186,8 @@ PENDING_OF = {'post_ante': 'ante', 'post_blind_or_straddle': 'blind', 'kill_hand
 
 def pending_sets(st: Any) -> dict:
     return {
-        'status': st.status, 'street': st.street_index,
+        'status': st.status, 'street': st.street_index, 'all_in': st.all_in_status,
+        'final_street': st.street is st.streets[-1],
         'ante': list(st.ante_poster_indices), 'blind': list(st.blind_or_straddle_poster_indices),
         'kill': list(st.hand_killing_indices), 'pull': list(st.chips_pulling_indices),
         'runout': list(st.runout_count_selector_indices), 'show': list(st.showdown_indices),
@@ -269,6 +274,12 @@ def h_probe(ctx: Any, code: str, n: int, script: str, mode: str = 'C', stacks: A
             ctx.check(rec.player_index == args[1], 'wrong-player', opname)
         if opname == 'select_runout_count':
             ctx.check(rec.runout_count is None or rec.runout_count == args[0], 'wrong-count')
+        if opname == 'show_or_muck_hole_cards' and rec.hole_cards and pend_before['street'] is not None \
+                and mode == 'T' and (pend_before['all_in'] or pend_before['final_street']):
+            # tournament: an all-in or final showdown shows ALL hole cards
+            who = rec.player_index
+            ctx.check(all(st.hole_card_statuses[who]) and all(bool(c) for c in st.hole_cards[who]),
+                      'partial-show-accepted-in-tournament', lambda: f'{args}')
         # the pending set of the operation's phase loses exactly the player operated on
         key = PENDING_OF.get(opname)
         if key is not None and getattr(rec, 'player_index', None) is not None and pend_before['status']:
